@@ -143,7 +143,17 @@ func Main(args []string) {
 		os.Exit(2)
 	}
 	cx := &Ctx{Prop: prop, Tier: tier, Seed: seed, R: NewRand(seed), Res: NewResult(prop, tier, seed), Replay: replay, Start: time.Now()}
-	run(cx)
+	func() {
+		// last resort: a panic of the implementation that a runner did not guard; the run is deterministic in
+		// (property, tier, seed), which is the replay
+		defer func() {
+			if r := recover(); r != nil {
+				cx.Res.Fail(Failure{Kind: "oracle", Key: "panic:unguarded", Desc: fmt.Sprintf("panic: %v\n%s", r, Trunc(string(debug.Stack()), 3000)),
+					Input: fmt.Sprintf("hx %s -tier %s -seed %d", prop, tier, seed)})
+			}
+		}()
+		run(cx)
+	}()
 	cx.Close()
 	if out != "" {
 		if err := cx.Res.Write(out); err != nil {
